@@ -65,6 +65,9 @@ func genC20(tier string, seed uint64, run int) *Scenario {
 	if ec {
 		p["curve"] = "ec"
 		nops = 3 + r.IntN(3)
+		if (run/4)%4 == 1 {
+			p["fresh"], p["idpool"] = true, (run/16)%3
+		}
 	} else {
 		p["curve"] = "ed"
 		n, t := nt(r, 5)
@@ -99,6 +102,18 @@ func driveHistory(rc *RunCtx) {
 		}
 		edKeys, pids = k, p
 		pub = pt(k[0].EDDSAPub.X(), k[0].EDDSAPub.Y())
+	} else if sc.Bool("fresh") {
+		// a key made by a simulated key generation with party ids above the group order (the vendored key's
+		// ids are all below it)
+		n, t = 3, 1
+		g = Secp
+		idk := idKeys(idRand("key", n, sc.Int("idpool", 0)), "aboveq", n, Secp.Order(), 0)
+		k, p, ok := rc.ECKeygenQuiet(idk, t, sc.Int("idpool", 0))
+		if !ok {
+			return
+		}
+		ecKeys, pids = k, p
+		pub = pt(k[0].ECDSAPub.X(), k[0].ECDSAPub.Y())
 	} else {
 		n, t = 5, 2
 		g = Secp
